@@ -21,17 +21,17 @@ BUILT = {
             "DESIGN.md 4/C03"),
     "C04": ("model_checking",
             "bounded-exhaustive history enumeration with explicit-state de-duplication of post-reset states; differential oracle vs fresh instance",
-            "For all 22 indicators (periods 1..4, tuples over {1,2,3}): every prefix history over values, NaN/inf/extreme values and resets up to depth 4/6, then reset(), then every continuation of length max(n+2,4) over finite values, NaN and +inf compared step by step with a fresh instance; continuations explored once per distinct post-reset concrete state (bincode+Debug); Display/period()/multiplier() compared; long-prefix family for periods up to 64/256.",
+            "For all 22 indicators (periods 1..4, tuples over {1,2,3}): every prefix history over values, NaN/inf/extreme values and resets up to depth 4/6, then reset(), then every continuation of length max(n+2,4) over finite values, NaN and +inf compared step by step with a fresh instance; continuations explored once per distinct post-reset concrete state (bincode+Debug); Display/period()/multiplier() compared; long-prefix family for periods up to 64/256; lifecycle state graph (inputs + reset, de-duplicated on the concrete state) explored to a fixpoint where finite, reset() checked in every reachable state, finite graphs cross-checked with stateright.",
             "De-duplication assumes equal bincode+Debug state implies equal futures; every reported difference is a real execution.",
             "DESIGN.md 4/C04"),
     "C05": ("model_checking",
             "exhaustive schedule enumeration with a controlled scheduler over real OS threads; oracle = bit-identical to fresh sequential replay",
-            "For all 22 indicators (periods 1,3) and every history up to depth 3 at which a clone is taken: all 90 interleavings of 2-operation continuations on {original, clone, unrelated instance}; every assignment of the 6 steps to 2 (thorough: 3) real worker threads up to renaming for three canonical interleavings, clone taken on either worker; every pair of continuations for original and clone; each output must be bit-identical to a fresh instance replaying that object's own operations. A sampled free-running 16-thread stage is supplementary and labelled as sampling.",
+            "For all 22 indicators (periods 1,3) and every history up to depth 3 at which a clone is taken: all 90 interleavings of 2-operation continuations on {original, clone, unrelated instance}; every assignment of the 6 steps to 2 (thorough: 3) real worker threads up to renaming for three canonical interleavings, clone taken on either worker; every pair of continuations for original and clone; each output must be bit-identical to a fresh instance replaying that object's own operations; every part on an exact and an inexact alphabet; clone followed by every continuation of n+2 inputs (periods 1..5/6); lifecycle state graph with clone() checked in every reachable state. A sampled free-running 16-thread stage is supplementary and labelled as sampling.",
             "Operation-level atomicity is complete only while instances share no memory; a syntactic audit of /repo/src re-checks that premise on every run and the evidence says so if it trips. Merges x assignments are covered as a union of slices, not the full product.",
             "DESIGN.md 2.3, 4/C05"),
     "C06": ("model_checking",
             "bounded-exhaustive history enumeration; every prefix a checkpoint (crash point), de-duplicated by concrete state; differential oracle original-by-replay vs restored copy",
-            "For all 22 indicators (periods 1..4): every history over values, NaN and resets up to depth 4/6 is a checkpoint; the real object is serialized with bincode and restored once and twice; every continuation of n+2 inputs is fed to the original (rebuilt by replay) and both restored copies and compared at 1e-12 relative; Display/period()/multiplier() compared; every lattice DataItem that build() accepts round-trips to an equal value.",
+            "For all 22 indicators (periods 1..4): every history over values, NaN and resets up to depth 4/6 is a checkpoint; the real object is serialized with bincode and restored once and twice; every continuation of n+2 inputs is fed to the original (rebuilt by replay) and both restored copies and compared at 1e-12 relative; Display/period()/multiplier() compared; long-history family for periods up to 64/257; lifecycle state graph with the round trip checked in every reachable state; every lattice DataItem that build() accepts round-trips to an equal value.",
             "bincode only; continuation alphabet of 3 finite values.",
             "DESIGN.md 4/C06"),
     "C07": ("model_checking",
@@ -61,7 +61,7 @@ BUILT = {
             "DESIGN.md 4/C11"),
     "C12": ("model_checking",
             "bounded-exhaustive enumeration of special-value sequences + deviation-bounded fault injection (special value / reset at every position) on the real code under catch_unwind",
-            "All 22 indicators: all sequences over {1.0, NaN, +-inf, +-f64::MAX, 5e-324, -0.0, inconsistent bars, reset} up to depth 5/6 for periods 1..4 and multipliers {2,0,-1,NaN,1e300,inf}; for every period 1..64 a default stream of 3n+3 inputs at every prefix length and with every special value or reset injected at every position (pairs of positions for n<=16 in thorough); periods 100, 257, 1000, 4096 at wrap-around positions; Display, Debug, clone and bincode serialization invoked in every final state; built with overflow checks and debug assertions.",
+            "All 22 indicators: all sequences over {1.0, NaN, +-inf, +-f64::MAX, 5e-324, -0.0, inconsistent bars, reset} up to depth 5/6 for periods 1..4 and multipliers {2,0,-1,NaN,1e300,inf}; for every period 1..64 a default stream of 3n+3 inputs at every prefix length and with every special value or reset injected at every position (pairs of positions for n<=16 in thorough); periods 100, 257, 1000, 4096 at wrap-around positions; one long run (3e5 / 1.2e6 calls) per indicator and period 1..64; Display, Debug, clone and bincode serialization invoked in every final state; built with overflow checks and debug assertions.",
             "No panic is the only oracle; covers cursor arithmetic for periods 1..64 completely (input-independent cursors).",
             "DESIGN.md 4/C12"),
     "C13": ("exploration",
@@ -81,7 +81,7 @@ BUILT = {
             "DESIGN.md 4/C15"),
     "C16": ("model_checking",
             "explicit-state enumeration of the builder state machine (all abstract states, all transitions, all setter orders) against a reference predicate",
-            "All 11^5 abstract builder states, all 50 setter transitions out of each, all 120 setter orders on all 10^5 complete lattice tuples, all setter sequences with repetition up to length 6/7 over {-1,1,NaN}; build() compared with the reference predicate, getters bit-exact, clone ==.",
+            "All 11^5 abstract builder states, all 50 setter transitions out of each, all 120 setter orders on all 10^5 complete lattice tuples, all setter sequences with repetition up to length 6/7 over {-1,1,NaN}; all tuples over nearly-equal prices; build() compared with the reference predicate, the two errors distinguishable, getters bit-exact (also through &&DataItem), clone ==; graph cross-checked with stateright.",
             "Exhaustive over the 10-value lattice (every order type of the prices, every sign class of volume); other finite values not enumerated.",
             "DESIGN.md 4/C16"),
     "C17": ("model_checking",
@@ -91,7 +91,7 @@ BUILT = {
             "DESIGN.md 4/C17"),
     "C18": ("exploration",
             "bounded-exhaustive short sequences (serialized size in every state) + systematic enumeration of long generated streams with a counting global allocator",
-            "All 22 indicators: bincode length in every state of every sequence over 3 symbols up to depth min(3n+3, 10/13) for periods 1..4; long runs (all 25 ordered pairs of {up, down, alternating, flat, walk} segments, 2e4 / 5e5 inputs each, periods up to 257 / 512): serialized length at checkpoints and live heap bytes of the executing thread after warm-up vs after every segment, both bounded by 256 + 64*sum(periods).",
+            "All 22 indicators: bincode length in every state of every sequence over 3 symbols up to depth min(3n+3, 10/13) for periods 1..4; long runs (all 25 ordered pairs of {up, down, alternating, flat, walk} segments, 2e4 / 5e5 inputs each, periods up to 257 / 512): serialized length at checkpoints and live heap bytes of the executing thread after warm-up vs after every segment, both bounded by 256 + 64*sum(periods); variants with periodic reset(), one NaN input, and continuation on a bincode-restored copy.",
             "Designed family of stream shapes; heap measured per thread.",
             "DESIGN.md 4/C18"),
 }
